@@ -1,14 +1,13 @@
-(* Constants of the gradient model taken from the regenerated Extracted/Src.v: the three
-   small-denominator thresholds of gradient._derivative_integral (masks on dE, EdE, EdEdE), in
-   source order; Model/Tie/C11.v re-checks the expected literals.                            *)
+(* Constants of the gradient model taken from the regenerated Extracted/Src.v: the thresholds of
+   gradient._derivative_integral (mask_dE on dE*dt; mask_series on EdE*dt), in source order, and of
+   gradient._liouville_derivative; Model/Tie/C11.v re-checks the expected literals.              *)
 From Coq Require Import ZArith String List.
 From FF Require Import Extracted.Src.
 Import ListNotations.
 
 Definition di_thr_nth (i : nat) : Z * Z := snd (nth i thr_gradient__derivative_integral (""%string, (0, 0)%Z)).
 Definition di_thr_dE : Z * Z := di_thr_nth 0.
-Definition di_thr_EdE : Z * Z := di_thr_nth 1.
-Definition di_thr_EdEdE : Z * Z := di_thr_nth 2.
+Definition di_thr_series : Z * Z := di_thr_nth 1.
 
 (* threshold of the degeneracy mask of gradient._liouville_derivative (np.abs(omega_diff*dt) < 1e-7) *)
 Definition ld_thr : Z * Z := snd (nth 0 thr_gradient__liouville_derivative (""%string, (0, 0)%Z)).
